@@ -461,7 +461,9 @@ pub(crate) fn array_type_spec(p: &mut Parser<'_>, want_array_ref_type: bool) -> 
     } else {
         assert!(p.at(T![array]));
     }
-    p.bump_any();
+    if !p.eat(T![array]) {
+        p.err_and_bump("expected `array`");
+    }
     p.expect(T!['[']);
     if !matches!(
         p.current(),
